@@ -12,7 +12,9 @@ import math
 
 REXES = [r'^[a-z]+$', r'^\d{2,4}$', r'^[A-Z][a-z]*\s\w+$', r"^it's$",
          r'^say "hi"$', r'^back\\slash$', r'^.*$', r'^[^\W\d_]+\d*$',
-         r'^(alpha|beta|gamma)$', r'^café$', '^数据$', r'^\S+$']
+         r'^(alpha|beta|gamma)$', r'^café$', '^数据$', r'^\S+$',
+         # hand-written prefix patterns: not anchored at the end
+         r'^[a-z]+', r'^[A-Z]\d', r'[a-z]{2}', r'^(alpha|x)']
 SIGNS = ['positive', 'non-negative', 'zero', 'non-positive', 'negative',
          'null']
 TYPES = ['bool', 'int', 'real', 'date', 'string']
